@@ -325,7 +325,7 @@ func ext۰reflect۰Value۰Len(fr *frame, args []value) value {
 	case map[value]value:
 		return len(v)
 	default:
-		panic(fmt.Sprintf("reflect.(Value).Len(%v)", v))
+		panic(rtErr(fr, fmt.Sprintf("reflect: call of reflect.Value.Len on (%v)", v)))
 	}
 }
 
